@@ -20,7 +20,7 @@ OFF_MAX = 64800
 
 META = {
     "property": "C07",
-    "proof_modules": ["PyodaProofs.C07", "PyodaProofs.C07b", "PyodaProofs.C07Stepped", "PyodaProofs.C07Reformat", "PyodaProofs.C07Instances", "PyodaProofs.C07DateTime", "PyodaProofs.C07Text", "PyodaProofs.C07TextInstances", "PyodaProofs.C07Duration", "PyodaProofs.C07Segmented", "PyodaProofs.C07SegmentedInstances", "PyodaProofs.C07Calendar", "PyodaProofs.C07Instant"],
+    "proof_modules": ["PyodaProofs.C07", "PyodaProofs.C07b", "PyodaProofs.C07Stepped", "PyodaProofs.C07Reformat", "PyodaProofs.C07Instances", "PyodaProofs.C07DateTime", "PyodaProofs.C07Text", "PyodaProofs.C07TextInstances", "PyodaProofs.C07Duration", "PyodaProofs.C07Segmented", "PyodaProofs.C07SegmentedInstances", "PyodaProofs.C07Calendar", "PyodaProofs.C07Instant", "PyodaProofs.GenAgreeC07N"],
     "drivers": ["drv_text"],
     "theorems": [
         "Pyoda.C07.parseDigits_leftPad",
@@ -135,12 +135,30 @@ META = {
         "Pyoda.C07.isoInstant_delimited",
         "Pyoda.C07.isoInstantPattern_roundtrip",
         "Pyoda.C07.isoInstant_generic_roundtrip",
+        # agreement of the definitions generated from the Python source (tools/py2lean.py) with the model
+        "Pyoda.GenAgree.C07N.gen_FormatHelper_leftPadNonNegative_eq",
+        "Pyoda.GenAgree.C07N.gen_FormatHelper_leftPadNonNegative_dom",
+        "Pyoda.GenAgree.C07N.gen_FormatHelper_format2DigitsNonNegative_eq",
+        "Pyoda.GenAgree.C07N.gen_FormatHelper_format4DigitsValueFits_eq",
+        "Pyoda.GenAgree.C07N.gen_FormatHelper_leftPad_eq", "Pyoda.GenAgree.C07N.gen_FormatHelper_appendFraction_eq",
+        "Pyoda.GenAgree.C07N.gen_FormatHelper_formatInvariant_eq",
+        "Pyoda.GenAgree.C07N.gen_FormatHelper_appendFractionTruncate_eq", "Pyoda.GenAgree.C07N.gen_Cursor_length_eq",
+        "Pyoda.GenAgree.C07N.gen_Cursor_value_eq", "Pyoda.GenAgree.C07N.gen_Cursor_index_eq",
+        "Pyoda.GenAgree.C07N.gen_Cursor_current_eq", "Pyoda.GenAgree.C07N.gen_Cursor_hasMoreCharacters_eq",
+        "Pyoda.GenAgree.C07N.gen_Cursor_move_eq", "Pyoda.GenAgree.C07N.gen_Cursor_moveNext_eq",
+        "Pyoda.GenAgree.C07N.gen_Cursor_movePrevious_eq", "Pyoda.GenAgree.C07N.gen_Cursor_parseDigits_eq",
+        "Pyoda.GenAgree.C07N.gen_Cursor_parseFraction_eq", "Pyoda.GenAgree.C07N.gen_Cursor_matchText_eq",
+        "Pyoda.GenAgree.C07N.gen_Cursor_getDigit_eq", "Pyoda.GenAgree.C07N.gen_Cursor_remainder_eq",
+        "Pyoda.GenAgree.C07N.gen_Cursor_peekNext_eq", "Pyoda.GenAgree.C07N.gen_StringBuilder_length_eq",
+        "Pyoda.GenAgree.C07N.gen_StringBuilder_getitem_eq", "Pyoda.GenAgree.C07N.gen_StringBuilder_toString_eq",
     ],
     "trusted_base": [
+        "translator tie (tools/py2lean.py; GenAgreeC07N, builder T4): what Python's str operations mean is PyodaGen/TextSupport.lean — a str is the list of its code points, s[i] a character (negative indices from the end, IndexError outside), slices with Python's clamping, f\"{v:0N}\" / f\"{v:0{n}d}\" sign-aware zero padding (ValueError for n < 0), f\"{v:0>{n}}\" fill-right (a negative n = -k reads as sign option + width k), str(int), c.isdigit() as the table of CPython's 808 digit code points, int(c) only for '0'..'9', int(a * math.pow(10.0, k)) as the exact integer a*10^k ONLY where the double computation is exact (0 <= k <= 22, 0 <= a, a*10^k < 2^53) — outside these ranges, and for format widths above INT_MAX, the generated code answers 'outside the modelled domain'; all of it is compared with CPython on every run of the C03 check (tools/py2lean_selftest.py text_selftest: 25 corpus functions, every code point for isdigit, 21 must-refuse programs). The StringBuilder (append, length, item, length setter) and the four cursor attributes are explicit state (PyodaGen/GlueC07N.lean, the StringBuilder operations hand-written from _string_builder.py); the cursor methods themselves are translated",
         "float step of _ValueCursor._parse_fraction (int(result * math.pow(10.0, scale - count))) is exact for at most 9 digits (products below 2^53); sampled by suite text.num",
         "str.isdigit()/int() on ASCII digits; str slicing and comparison by code point",
     ],
     "partial": [
+        "translator tie covers the numeric core only: _FormatHelper (_left_pad_non_negative, _format_2_digits_non_negative, _format_4_digits_value_fits, _left_pad, _append_fraction, _append_fraction_truncate, _format_invariant) and _TextCursor/_ValueCursor (length, value, current, index, has_more_characters, remainder, peek_next, move, move_next, move_previous, _match, _parse_digits, _parse_fraction, __get_digit), each proved equal to the model of PyodaModel/Text/Numeric.lean on cursor states VC.at v i (text v, index i; remaining text v.drop i). Hypotheses: widths <= INT_MAX; |value| < 10^27 where _towards_zero_division (Decimal) is used; _parse_fraction for maximum_digits <= scale <= 15 (where the float scaling is exact); cursor index inside 0..len for the scanning functions. Outside the tie (refused by the translator, correspondence only): _parse_int64 and __build_number_out_of_range_result (walrus over a raising call under `and` in the loop test; ParseResult objects carrying formatted messages), _match_case_insensitive (str.lower), _compare_ordinal (str ordering of whole strings), __str__, the pattern compiler and every step built on top of these primitives",
         "the theorems cover the modelled subset only: numeric primitives and the built-in ISO patterns (LocalDatePattern.iso, LocalTimePattern.extended_iso/long_extended_iso/general_iso, LocalDateTimePattern.extended_iso/general_iso/bcl_round_trip, InstantPattern.extended_iso/general over date-time fields, OffsetPattern g/G in the invariant culture) as straight-line functions",
         "generic engine (PyodaModel/Text/Stepped, Engine, Buckets; tied to the code by suites text.pat.compile/fmt/parse): stepped_roundtrip and pattern_roundtrip hold for every culture record and every Delimited list of steps of LocalTime, LocalDate (ISO), LocalDateTime (ISO, any template), Offset, AnnualDate (any template) and Duration patterns: literal / padded numeric / fraction (f, F, .F, ;F) / ';' / sign steps and the TEXT steps month names (MMM, MMMM; genitive and plain tables searched together), day names (ddd, dddd), am/pm designators (t, tt), era names (g) and the calendar id (c, ISO values); 'Representable' is stated as: the value is determined by the projection of its fields onto the slots the pattern sets; it is discharged for LocalTimePattern.extended_iso, LocalDatePattern.iso, the long Offset pattern, LocalDateTimePattern.extended_iso, the invariant long-date pattern 'dddd, dd MMMM yyyy' (every date of the common era), 'hh:mm tt' (every whole minute), AnnualDatePattern.iso (every annual date) and DurationPattern.roundtrip '-D:hh:mm:ss.FFFFFFFFF' and json_roundtrip '-H:mm:ss.FFFFFFFFF' for EVERY Duration from min_value to max_value inclusive (…_generic_roundtrip); other patterns instantiate it case by case; the share of generated patterns for which the decidable criterion Delimited holds is recorded under notes",
         "text steps: Delimited includes the decidable culture conditions NamesOK = monthNamesOK / dayNamesOK (every name of the table used on format is non-empty and no other position of the tables searched on parse holds a name of the same length equal to it up to ASCII case), amPmOK (t: first characters differ up to case; tt: the shorter designator is not a prefix of the longer up to case), eraOK (scanning the era names in parse order, the first name matching a primary name is that name) AND that the literal/field that follows a text step cannot continue a written name into a longer candidate (monthDanger / dayDanger / amPmDanger / eraDanger = the characters by which some candidate strictly extends a formatted name; Follow.notCharCI); the core theorem is parseLongest_formatted; the conditions are evaluated per run by the model (op cu.names, suite text.names, compared with the harness's own evaluation on the code's format info) and cultures failing them are listed in the notes together with concrete values that do not round-trip on the real code (e.g. 'h:mm t' where both designators start with the same character; 'MMM.'-style patterns where one month table has 'Jan' and the other 'Jan.'): these are properties of the culture data, not of the engine; CASE FOLDING is a parameter: _match_case_insensitive compares substring.lower() == match.lower(), modelled character by character with the folding lowC cu = ASCII lower-casing plus the run's table cu.fold of (character, str.lower(character)) pairs for the non-ASCII characters of the culture's names and of the text at hand (sent with every pat.parse / cu.names / pat.delim op); every theorem of C07Text.lean (mCI_short/long, findLongest_inv, parseLongest_formatted, the month/day/am-pm/era round trips) is stated and proved for ANY folding function Char -> Char (no idempotence needed), the culture-level ones for lowC cu with any table; the model answers !dom only when a character is not listed, which the harness arranges for exactly the two characters whose str.lower() is not character-wise: U+0130 (two characters) and U+03A3 (final-sigma rule) — about 0.2 % of the hostile parse ops (was 20 %)",
